@@ -92,16 +92,20 @@ func cn(c cid.Cid) string {
 	return c.String()
 }
 
-const ruleBatch = "state machine on one real CRDT replica: configuration drawn from {batching off, size-triggered (size 1-5, age 30 s), age-triggered (size 50, age 150-300 ms), small queue (1-3)}; actions pin (well-formed pins over 4 CIDs), unpin, burst of n operations, pause longer than the age, a trickle (operations every age/4 for 8 ages, fewer than the batch size), datastore fault on/off (block writes of go-ds-crdt fail); model = accepted operations in order and the committed map; oracle: errors are ErrMaxQueueSizeReached (batching on) or the injected failure (batching off) and a refused operation has no effect; once size operations are accepted, or the age elapsed, the state equals the model with all of them applied, and before that (age 30 s) it is still the previous committed state; per CID the last accepted operation wins; after faults are off and a further trigger everything accepted is applied and a sentinel pin becomes visible; the tracker's last event per CID matches; non-trivial = a batch with two operations on one CID, a queue overflow, or a fault; distinct by script"
+const ruleBatch = "state machine on one real CRDT replica: configuration drawn from {batching off, size-triggered (size 1-5, age 30 s), size-triggered with a short age (size 2-4, age 300-500 ms), age-triggered (size 50, age 150-300 ms), small queue (1-3)}; actions pin (well-formed pins over 4 CIDs), unpin, burst of n operations, pause longer than the age, a trickle (operations every age/4 for 8 ages, fewer than the batch size), datastore fault on/off (block writes of go-ds-crdt fail); model = accepted operations in order and the committed map; oracle: errors are ErrMaxQueueSizeReached (batching on) or the injected failure (batching off) and a refused operation has no effect; once size operations are accepted, or the age elapsed, the state equals the model with all of them applied, and before that (age 30 s) it is still the previous committed state; per CID the last accepted operation wins; after faults are off everything accepted is applied - in half of the short-age cases without any further operation (quiet end), otherwise after a further trigger - and a sentinel pin becomes visible; the tracker's last event per CID matches; non-trivial = a batch with two operations on one CID, a queue overflow, or a fault; distinct by script"
 
 func TestBatching(t *testing.T) {
 	leg := ev.L("batching", ruleBatch)
 	rapid.Check(t, func(t *rapid.T) {
-		mode := rapid.SampledFrom([]string{"off", "size", "size", "age", "age", "smallqueue"}).Draw(t, "mode")
+		mode := rapid.SampledFrom([]string{"off", "size", "size", "sizeshort", "age", "age", "smallqueue"}).Draw(t, "mode")
 		size, age, queue := 0, time.Duration(0), 0
 		switch mode {
 		case "size":
 			size, age = rapid.IntRange(1, 5).Draw(t, "size"), 30*time.Second
+		case "sizeshort":
+			// size-triggered batches with an age short enough to watch the age
+			// timer pick up what a failed size-triggered commit left behind
+			size, age = rapid.IntRange(2, 4).Draw(t, "size"), time.Duration(rapid.IntRange(300, 500).Draw(t, "ageMs"))*time.Millisecond
 		case "age":
 			size, age = 50, time.Duration(rapid.IntRange(150, 300).Draw(t, "ageMs"))*time.Millisecond
 		case "smallqueue":
@@ -247,6 +251,10 @@ func TestBatching(t *testing.T) {
 			case mode == "size":
 				whole := len(pending) - len(pending)%size
 				sync(why, whole, whole, 20*time.Second)
+			case mode == "sizeshort":
+				// whole batches are due; the age timer may have added the rest
+				whole := len(pending) - len(pending)%size
+				sync(why, whole, len(pending), 20*time.Second)
 			default: // age trigger: nothing is due before the age elapsed
 			}
 		}
@@ -279,7 +287,7 @@ func TestBatching(t *testing.T) {
 				settle("after burst")
 			},
 			"pause": func(t *rapid.T) {
-				if mode != "age" && mode != "smallqueue" {
+				if mode != "age" && mode != "smallqueue" && mode != "sizeshort" {
 					t.Skip("no age trigger")
 				}
 				time.Sleep(age + 50*time.Millisecond)
@@ -349,6 +357,24 @@ func TestBatching(t *testing.T) {
 		script = append(script, "| end")
 		sentinel := api.PinCid(gen.Cids[6])
 		sentinel.Name = "sentinel"
+		// with a short batch age, half of the cases end quietly: nothing more is
+		// submitted, and what was accepted must still be applied (the age
+		// timer retries whatever an earlier failed commit left behind)
+		quiet := (mode == "sizeshort" || mode == "smallqueue" || mode == "age") && rapid.Bool().Draw(t, "quietEnd")
+		if quiet {
+			script = append(script, "[quiet end]")
+			classes["quiet-end"] = true
+			final := map[string]string{}
+			for k, v := range committed {
+				final[k] = v
+			}
+			for _, o := range pending {
+				apply(final, o)
+			}
+			if got, ok := waitState(r, final, 6*age+5*time.Second); !ok {
+				fail("quiet end: %v after the datastore became healthy (batch age %v) and without further operations the accepted operations are still not applied\nwant:\n%sgot:\n%s", 6*age+5*time.Second, age, renderState(final), renderState(got))
+			}
+		}
 		if mode == "off" {
 			if !submit(true, sentinel) {
 				fail("sentinel refused")
